@@ -5,6 +5,7 @@
 // schedule names.  Byzantine parties are played by the harness (message injection / silence).
 #include "fix.hh"
 #include <deque>
+#include <set>
 #include <algorithm>
 using namespace vf;
 const char *vf::PROPERTY = "C14";
@@ -270,4 +271,68 @@ VF_SUB(random_schedules, 3000, 120000) {
   if (w->injections || w->out_of_order) ctx.nontrivial(d.str() + w->trace.str() + std::to_string(w->steps));
   if (ctx.failed) ctx.fail_msg += " || " + ctx.desc.str();
   delete w;
+}
+
+// ---------------------------------------------------------------------------------------------------------------
+// Systematic part: delay-bounded enumeration around a canonical order for n = 4, t = 1.  The canonical schedule hands over
+// messages round-robin over (receiver, link); a schedule of the enumerated family deviates from it at <= d positions, where a
+// deviation at position k picks the alt-th other non-empty (receiver, link) pair instead of the canonical one (which stays
+// queued, i.e. is delayed).  ALL schedules with d <= 1 (positions 0..63, 8 alternatives) are run in the quick tier and all with
+// d = 2 in the thorough tier, for six scenarios x both delivery call styles; d in 2..4 is sampled in the quick tier.
+enum { SY_ONE = 0, SY_TWO, SY_SILENT_BYZ, SY_EQUIVOCATE, SY_EQUIVOCATE_MINORITY, SY_EQUIVOCATE_FLOOD, SY_COUNT };
+static const char *SY_NAME[SY_COUNT] = {"one-broadcast", "two-broadcasts", "silent-byzantine", "equivocating-byzantine-supports-each-recipients-value", "equivocating-byzantine-supports-the-minority-value", "equivocating-byzantine-floods-echoes-and-readys-for-both-values"};
+static const size_t SY_L = 64, SY_B = 8;
+static void run_systematic(Ctx &ctx, int tmpl, bool from_mode, const std::vector<std::pair<size_t, size_t> > &dev) {
+  const size_t n = 4, t = 1; bool has_byz = tmpl >= SY_SILENT_BYZ; size_t b = 3;
+  World *w = new World(); w->n = n; w->t = t; w->net = new Net(n); w->honest.assign(n, true); if (has_byz) w->honest[b] = false; w->net->honest = w->honest;
+  for (size_t p = 0; p < n; p++) { w->a.push_back(new StepNet(n, p, w->net)); w->r.push_back(new CachinKursawePetzoldShoupRBC(n, t, p, w->a[p], aiounicast::aio_scheduler_roundrobin, 0)); }
+  w->phase.assign(n, 0); w->done_bc.assign(n, 0); w->gaveup.assign(n, false); w->finished.assign(n, false); w->got.resize(n); w->delivered.resize(n); w->slot_val.resize(n); w->seen_send.resize(n);
+  if (has_byz) w->finished[b] = true;
+  Phase ph; ph.op = -1; ph.fifo = true; ph.from_mode = from_mode; ph.chan = "root"; w->chan_fifo["root"] = true;
+  for (size_t p = 0; p < n; p++) ph.nb.push_back(!w->honest[p] ? 0 : p == 0 ? 1 : (p == 1 && tmpl == SY_TWO) ? 1 : 0);
+  w->prog.push_back(ph);
+  for (size_t p = 0; p < n; p++) while (w->honest[p] && w->done_bc[p] < (size_t)ph.nb[p]) act(ctx, *w, p); // broadcasts happen at time 0
+  if (tmpl >= SY_EQUIVOCATE) { // slot (root, b, 1): r-send v1 to P0 and P1, v2 to P2; echo and ready either for the value each recipient got, or for the minority value v2 everywhere
+    sniff(*w); Z id = w->chan_id["root"]; auto digest = [](const Z &pl) { Z d; tmcg_mpz_shash(d.get_mpz_t(), 1, pl.get_mpz_t()); return d; };
+    std::string slot = "root|3|1"; Z v1 = Z(w->next_val++), v2 = Z(w->next_val++);
+    for (const Z &v : {v1, v2}) { ValInfo vi; vi.sender = b; vi.chan = "root"; vi.byz = true; vi.slot = slot; vi.index = 0; w->vals[v.get_str()] = vi; }
+    auto put = [&](size_t q, int action, const Z &payload) { for (const Z &x : {id, Z((unsigned long)b), Z(1), Z(action), payload}) w->net->q[b][q].push_back(x); w->injections++; };
+    for (size_t q = 0; q < 3; q++) { const Z &v = q < 2 ? v1 : v2; Z d = tmpl == SY_EQUIVOCATE ? digest(v) : digest(v2);
+      if (tmpl == SY_EQUIVOCATE_FLOOD) { // repeated readys and echoes for both values, the readys ahead of the r-send
+        put(q, 3, digest(v2)); put(q, 3, digest(v2)); put(q, 3, digest(v1)); put(q, 1, v); for (int rep = 0; rep < 2; rep++) { put(q, 2, digest(v2)); put(q, 2, digest(v1)); } put(q, 3, digest(v1)); }
+      else { put(q, 1, v); put(q, 2, d); put(q, 3, d); } }
+  }
+  // the schedule
+  std::vector<size_t> hon; for (size_t p = 0; p < n; p++) if (w->honest[p]) hon.push_back(p);
+  size_t ptr = 0, k = 0, applied = 0; // ptr runs over the round-robin order of (receiver, link) pairs
+  for (; k < 4000 && !ctx.failed; k++) {
+    std::vector<std::pair<size_t, size_t> > ne; for (size_t z = 0; z < hon.size() * n; z++) { size_t x = (ptr + z) % (hon.size() * n), p = hon[x / n], l = x % n; if (w->net->q[l][p].size() >= 5) ne.push_back({p, l}); }
+    if (ne.empty()) break;
+    size_t choice = 0; for (auto &d : dev) if (d.first == k) { choice = d.second % ne.size(); if (choice) applied++; }
+    size_t p = ne[choice].first, l = ne[choice].second; size_t a = from_mode ? awaited(*w, p) : 0;
+    step(ctx, *w, p, l, from_mode ? (a < n ? a : (k + l) % n) : 0); while (act(ctx, *w, p)) {}
+    if (choice == 0) { size_t x = 0; for (size_t z = 0; z < hon.size(); z++) if (hon[z] == p) x = z * n + l; ptr = (x + 1) % (hon.size() * n); }
+  }
+  if (!ctx.failed) { run_case(ctx, *w, 0, false); judge_quiescence(ctx, *w); }
+  // an honest party's value must have reached every honest party; for the equivocated slot: all or none, and the same value (checked per step)
+  std::ostringstream d; d << "systematic n=4 t=1 " << SY_NAME[tmpl] << (from_mode ? " DeliverFrom" : " Deliver") << " deviations=["; for (auto &x : dev) d << "(" << x.first << "," << x.second << ")"; d << "] applied=" << applied << " steps=" << w->steps << " deliveries=" << w->deliveries;
+  if (!ctx.failed && tmpl >= SY_EQUIVOCATE && !from_mode) { size_t c = 0; for (size_t p : hon) c += w->slot_val[p].count("root|3|1"); if (c != 0 && c != hon.size()) ctx.fail("rbc/totality/byzantine-slot-delivered-by-some-but-not-all", d.str()); ctx.label(c ? "equivocated-slot-delivered" : "equivocated-slot-not-delivered"); }
+  ctx.desc << d.str(); ctx.label(SY_NAME[tmpl]); ctx.label(from_mode ? "sender-specific-delivery" : "any-sender-delivery"); ctx.label("deviations=" + std::to_string(dev.size()));
+  ctx.count("steps", (int64_t)w->steps); ctx.count("deliveries", (int64_t)w->deliveries);
+  if (applied == dev.size()) ctx.nontrivial(d.str()); // every requested deviation changed the order (otherwise the schedule coincides with one of fewer deviations)
+  if (ctx.failed) ctx.fail_msg += " || " + ctx.desc.str();
+  delete w;
+}
+static const size_t SY_CFG = SY_COUNT * 2, SY_N1 = 1 + SY_L * SY_B, SY_PAIRS = SY_L * (SY_L - 1) / 2, SY_N2 = SY_PAIRS * SY_B * SY_B;
+VF_ENUM(delay_bounded_schedules, SY_CFG * SY_N1, SY_CFG * SY_N1 + SY_CFG * SY_N2) {
+  size_t idx = ctx.c.raw(); std::vector<std::pair<size_t, size_t> > dev; size_t cfg;
+  if (idx < SY_CFG * SY_N1) { cfg = idx / SY_N1; size_t r = idx % SY_N1; if (r) dev.push_back({(r - 1) / SY_B, 1 + (r - 1) % SY_B}); }
+  else { size_t j = idx - SY_CFG * SY_N1; cfg = (j / SY_N2) % SY_CFG; size_t r = j % SY_N2, pr = r / (SY_B * SY_B), al = r % (SY_B * SY_B); size_t i = 0; while (pr >= SY_L - 1 - i) { pr -= SY_L - 1 - i; i++; }
+    dev.push_back({i, 1 + al % SY_B}); dev.push_back({i + 1 + pr, 1 + al / SY_B}); }
+  run_systematic(ctx, (int)(cfg / 2), cfg % 2 == 1, dev);
+}
+VF_SUB(delay_bounded_schedules_sampled, 2500, 60000) {
+  int tmpl = (int)ctx.c.index(SY_COUNT); bool from = ctx.c.coin(); size_t nd = (size_t)ctx.c.range(2, 4); std::vector<std::pair<size_t, size_t> > dev; std::set<size_t> used;
+  for (size_t i = 0; i < nd; i++) { size_t pos = ctx.c.index(tmpl == SY_TWO ? 100 : SY_L); if (used.count(pos)) continue; used.insert(pos); dev.push_back({pos, 1 + ctx.c.index(12)}); }
+  std::sort(dev.begin(), dev.end()); run_systematic(ctx, tmpl, from, dev);
 }
